@@ -189,7 +189,7 @@ def tableau_rules():
            '   Tableau.all8 / all32.  tbl_g : the helper g of _rowsum over all16.  tbl_rowsum1/2 : _rowsum on all pairs',
            '   of 1- and 2-qubit rows.  Section CH: _H_decompose and _phase.  c24_* : the 24 SingleQubitCliffordGates. *)',
            'From Coq Require Import List ZArith Bool.', 'From VF Require Import Base.RingOps Base.Mat Cliff.Tableau.',
-           'Import ListNotations.', 'Open Scope Z_scope.']
+           'Import ListNotations.', 'Local Open Scope Z_scope.']
     one = {'x': lambda q: (lambda t, a: t.apply_x(a, q / 4.0, 0.5)),
            'y': lambda q: (lambda t, a: t.apply_y(a, q / 4.0, -0.25)),
            'z': lambda q: (lambda t, a: t.apply_z(a, q / 4.0, 0.0)),
